@@ -1016,5 +1016,10 @@ def to_distinct_single_state(l_states: Iterable[State], taken: Set[State]) \
 
 
 def combine_state_pair(state0, state1):
-    """ Combine two states """
-    return State(str(state0.value) + "; " + str(state1.value))
+    """ Combine two states
+
+    The pair of values is kept as it is: joining the two names in a string
+    would give the same state to different pairs ("a; b" with "c" and "a"
+    with "b; c", or 1 with "1").
+    """
+    return State((state0.value, state1.value))
